@@ -63,7 +63,7 @@ type delivery struct {
 
 // caseCtx is what the registered input stubs answer with while one case runs.
 type caseCtx struct {
-	proposer core.PubKey               // the scheduled proposer (duty definition)
+	proposer core.PubKey                // the scheduled proposer (duty definition)
 	agreed   *eth2api.VersionedProposal // the proposal consensus agreed on (DutyDB)
 	got      []delivery
 }
